@@ -548,6 +548,7 @@ def b_sorted(eng, st, a, kw):
     st.assume(z3.ForAll([i], z3.Implies(z3.And(i >= 0, i < n), z3.And(sg(i) >= 0, sg(i) < n, tau(sg(i)) == i, out(i) == Z(seq.at(sg(i))))), patterns=[sg(i)]))
     st.assume(z3.ForAll([i], z3.Implies(z3.And(i >= 0, i < n), z3.And(tau(i) >= 0, tau(i) < n, sg(tau(i)) == i)), patterns=[tau(i)]))
     st.assume(z3.ForAll([i, j], z3.Implies(z3.And(i >= 0, i < j, j < n), out(i) <= out(j)), patterns=[z3.MultiPattern(out(i), out(j))]))
+    eng.sort_registry.append((sg, tau, n))  # seed sigma / tau at the skolem constants of later goals
     return ListV(n, lambda k: IntV(out(k)))
 
 
